@@ -134,6 +134,30 @@ func legC19(e *Engine) []Violation {
 			cb.q("dv", itoa(sg), hx(tag), intList([]int{3, 1025, 4, 1026, 8, 0, n - 1, 64}))
 			cb.q("dv", itoa(sg), hx(tag), intList([]int{n - 1, n - 2, 3, 1024, 1025, 1026, 1027, 1028, 1029, 1030, 1031, 1032, 1033, 1034, 1036, 1040, n - 1, 64}))
 			special = true
+		} else if i%6 == 3 {
+			// three doc-value fields over two chunks; the last one has values only in chunk 0, so in
+			// chunk 1 its load reads nothing: an earlier field's failed load must still be reported
+			cat, dense, sparse := []byte("cat"), []byte("dense"), []byte("sparse")
+			cb.u.fields = [][]byte{[]byte("_id"), cat, dense, sparse}
+			cb.u.terms = [][]byte{[]byte("x")}
+			cb.u.dvOK = map[string]bool{"cat": true, "dense": true, "sparse": true}
+			n := 1024 + r.Range(6, 30)
+			docs := make([]Doc, n)
+			for d := range docs {
+				if d >= 16 && d < 1024 {
+					continue // keep chunk 0 short
+				}
+				doc := Doc{{Name: cat, Length: 1, DV: true, Terms: []TermOcc{{Term: []byte(fmt.Sprintf("c%d", d)), Freq: 1}}},
+					{Name: dense, Length: 1, DV: true, Terms: []TermOcc{{Term: []byte(fmt.Sprintf("t%d", d)), Freq: 1}}}}
+				if d < 10 {
+					doc = append(doc, FieldInst{Name: sparse, Length: 1, DV: true, Terms: []TermOcc{{Term: []byte(fmt.Sprintf("n%d", d)), Freq: 1}}})
+				}
+				docs[d] = doc
+			}
+			sg = cb.addBuild(docs, 1024, "hook")
+			cb.q("dv", itoa(sg), hx(cat)+","+hx(dense)+","+hx(sparse), intList([]int{3, 1026, 1027, 5, n - 1}))
+			cb.q("dv", itoa(sg), hx(dense)+","+hx(sparse), intList([]int{n - 1, 2, 1025}))
+			special = true
 		} else if i%6 == 2 {
 			// two stored blocks of same-shaped records; visits go back and forth between the blocks
 			// (the visit context is pooled: what it held before must never be served)
@@ -481,7 +505,28 @@ func legC12(e *Engine) []Violation {
 				return
 			}
 			total := ref.buf.Len()
-			for k := 0; k < total; k++ {
+			// every offset for files up to 12000 bytes; for larger ones (a generated case may hold a
+			// 200 KB stored value) the first and last 3000 offsets and 3000 random ones in between
+			offsets := func(upTo int) []int {
+				var ks []int
+				if upTo <= 12000 {
+					for k := 0; k < upTo; k++ {
+						ks = append(ks, k)
+					}
+					return ks
+				}
+				for k := 0; k < 3000; k++ {
+					ks = append(ks, k)
+				}
+				for k := 0; k < 3000; k++ {
+					ks = append(ks, 3000+r.Intn(upTo-6000))
+				}
+				for k := upTo - 3000; k < upTo; k++ {
+					ks = append(ks, k)
+				}
+				return ks
+			}
+			for _, k := range offsets(total) {
 				atomic.AddInt64(&points, 1)
 				lw := &limitWriter{limit: k, closeAt: -1, ch: make(chan struct{})}
 				var n int64
@@ -500,8 +545,38 @@ func legC12(e *Engine) []Violation {
 					return
 				}
 			}
+			if strings.HasPrefix(wl.name, "Segment") && total > 60 {
+				// the same on segment objects whose FIRST persist ever is the failing one (fresh
+				// loaded twins): whatever a persist keeps in the segment is first filled on the error path
+				for _, k := range []int{1, total / 2, total - 50} {
+					twin, err := ice.Load(segment.NewDataBytes(append([]byte(nil), ref.buf.Bytes()...)))
+					if err != nil {
+						break
+					}
+					lw := &limitWriter{limit: k, closeAt: -1, ch: make(chan struct{})}
+					_, ferr := twin.WriteTo(lw, lw.ch)
+					var again bytes.Buffer
+					n2, err2 := twin.WriteTo(&again, nil)
+					if ferr == nil || err2 != nil || n2 != int64(again.Len()) || !bytes.Equal(again.Bytes(), ref.buf.Bytes()) {
+						add(Violation{Prop: "C12", CaseID: c.ID, Kind: "fault", Case: c,
+							Detail: fmt.Sprintf("%s on a freshly loaded copy: first WriteTo into a writer failing after %d of %d bytes (err=%v), then WriteTo into a healthy writer: n=%d err=%v, %d bytes that %s the reference file - success reported for a file that is not the segment's file", wl.name, k, total, ferr, n2, err2, again.Len(), map[bool]string{true: "equal", false: "DIFFER from"}[bytes.Equal(again.Bytes(), ref.buf.Bytes())])})
+						return
+					}
+				}
+			}
+			if strings.HasPrefix(wl.name, "Segment") {
+				// after all those failed attempts on the same segment object: a healthy writer gets the
+				// reference file, nothing truncated, partial or differently summed
+				again := &limitWriter{limit: -1, closeAt: -1, ch: make(chan struct{})}
+				n2, err2 := wl.run(again)
+				if err2 != nil || n2 != int64(again.buf.Len()) || !bytes.Equal(again.buf.Bytes(), ref.buf.Bytes()) {
+					add(Violation{Prop: "C12", CaseID: c.ID, Kind: "fault", Case: c,
+						Detail: fmt.Sprintf("%s: after attempts into failing writers, an attempt into a healthy writer reported n=%d err=%v for %d bytes that %s the reference file", wl.name, n2, err2, again.buf.Len(), map[bool]string{true: "equal", false: "DIFFER from"}[bytes.Equal(again.buf.Bytes(), ref.buf.Bytes())])})
+					return
+				}
+			}
 			if strings.HasPrefix(wl.name, "Merger") {
-				for k := 0; k <= total; k++ {
+				for _, k := range append(offsets(total), total) {
 					atomic.AddInt64(&points, 1)
 					lw := &limitWriter{limit: -1, closeAt: k, ch: make(chan struct{})}
 					var n int64
@@ -529,7 +604,7 @@ func legC12(e *Engine) []Violation {
 			atomic.AddInt64(&distinct, int64(total))
 			e.mu.Lock()
 			if len(e.rep.Samples) < 3 {
-				e.rep.Samples = append(e.rep.Samples, fmt.Sprintf("case %s, workload %s: %d bytes on a healthy writer; writer failing after k bytes for every k in 0..%d -> error each time; close channel closed after k bytes for every k in 0..%d -> ErrClosed or the identical complete file", c.ID, wl.name, total, total-1, total))
+				e.rep.Samples = append(e.rep.Samples, fmt.Sprintf("case %s, workload %s: %d bytes on a healthy writer; writer failing after k bytes for every k in 0..%d (files above 12000 bytes: first, last and random 3000) -> error each time; close channel closed after k bytes for every such k up to %d -> ErrClosed or the identical complete file", c.ID, wl.name, total, total-1, total))
 			}
 			e.mu.Unlock()
 		}
@@ -1051,10 +1126,9 @@ func legC09(e *Engine) []Violation {
 		}
 		stop := make(chan struct{})
 		var mwg sync.WaitGroup
-		// a merge of the shared segments loops meanwhile
-		mwg.Add(1)
-		go func() {
-			defer mwg.Done()
+		// the reference output of the merge, alone
+		var mergeRef []byte
+		{
 			var segs []segment.Segment
 			var drops []*roaring.Bitmap
 			for _, s := range w.segs {
@@ -1063,19 +1137,45 @@ func legC09(e *Engine) []Violation {
 					drops = append(drops, nil)
 				}
 			}
-			for {
-				select {
-				case <-stop:
-					return
-				default:
+			var buf bytes.Buffer
+			guard(opTimeout, func() string {
+				if _, err := ice.Merge(segs, drops, 4096).WriteTo(&buf, nil); err == nil {
+					mergeRef = append([]byte(nil), buf.Bytes()...)
 				}
-				var buf bytes.Buffer
-				guard(opTimeout, func() string {
-					_, _ = ice.Merge(segs, drops, 4096).WriteTo(&buf, nil)
-					return ""
-				})
-			}
-		}()
+				return ""
+			})
+		}
+		mergeBad := int32(0)
+		// TWO merges of the shared segments loop meanwhile (a segment may be an input of several)
+		for mi := 0; mi < 2; mi++ {
+			mwg.Add(1)
+			go func() {
+				defer mwg.Done()
+				var segs []segment.Segment
+				var drops []*roaring.Bitmap
+				for _, s := range w.segs {
+					if s.err == "" {
+						segs = append(segs, s.seg)
+						drops = append(drops, nil)
+					}
+				}
+				for {
+					select {
+					case <-stop:
+						return
+					default:
+					}
+					var buf bytes.Buffer
+					guard(opTimeout, func() string {
+						_, err := ice.Merge(segs, drops, 4096).WriteTo(&buf, nil)
+						if err == nil && mergeRef != nil && !bytes.Equal(buf.Bytes(), mergeRef) {
+							atomic.StoreInt32(&mergeBad, 1)
+						}
+						return ""
+					})
+				}
+			}()
+		}
 		var wg sync.WaitGroup
 		bad := ""
 		for t := 0; t < threads; t++ {
@@ -1114,6 +1214,9 @@ func legC09(e *Engine) []Violation {
 		close(stop)
 		mwg.Wait()
 		w.Close()
+		if bad == "" && atomic.LoadInt32(&mergeBad) != 0 {
+			bad = "a merge of the shared segments, running next to another merge of the same segments and to the readers, wrote a file that differs from the file the same merge writes alone"
+		}
 		if bad != "" {
 			vs = append(vs, Violation{Prop: "C09", CaseID: c.ID, Kind: "fault", Case: c, Detail: bad,
 				Extra: fmt.Sprintf("# schedule: %d goroutines, each the whole script in its own order, merge looping; race build=%v\n", threads, raceEnabled)})
@@ -1324,6 +1427,20 @@ func legC11(e *Engine) []Violation {
 				break
 			}
 			ref := plain.Bytes()
+			{
+				// one Merger written to two destinations, one after the other
+				mg := ice.Merge(segs, mkDrops(), 4096)
+				var d1, d2 bytes.Buffer
+				n1, e1 := mg.WriteTo(&d1, nil)
+				n2, e2 := mg.WriteTo(&d2, nil)
+				if e1 != nil || e2 != nil || n1 != int64(d1.Len()) || n2 != int64(d2.Len()) || !bytes.Equal(d1.Bytes(), ref) || !bytes.Equal(d2.Bytes(), ref) {
+					mu.Lock()
+					vs = append(vs, Violation{Prop: "C11", CaseID: c.ID, Kind: "fault", Case: c,
+						Detail: fmt.Sprintf("merge %d: one Merger, WriteTo called twice with two destinations: first (n=%d, %d bytes, err=%v, equal to the reference file=%v), second (n=%d, %d bytes, err=%v, equal=%v)", si, n1, d1.Len(), e1, bytes.Equal(d1.Bytes(), ref), n2, d2.Len(), e2, bytes.Equal(d2.Bytes(), ref))})
+					mu.Unlock()
+					return
+				}
+			}
 			for _, sizes := range [][2]int{{16, 1 << 20}, {4096, 1 << 20}, {4096, 64}, {64, 64}, {1 << 16, 4096}} {
 				drops := mkDrops()
 				var dst bytes.Buffer
@@ -1461,4 +1578,99 @@ func manyTerms(r *Rng, n int) []Doc {
 		docs[d] = Doc{{Name: []byte("_id"), Length: 1, Terms: []TermOcc{{Term: id, Freq: 1}}}, f}
 	}
 	return docs
+}
+
+// legC06big: stored values of hundreds of KB (a 128-document block gathers more than 1 MiB
+// before it is complete), compared with the INPUT directly - too large for the line protocol of
+// the Lean driver.  Built, loaded (both backings), merged without and with a deletion.
+func legC06big(e *Engine) []Violation {
+	r := NewRng(e.seed, "C06-big", 0)
+	n := 9
+	vals := make([][]byte, n)
+	docs := make([]Doc, n)
+	for d := range docs {
+		sz := r.Range(3, 40)
+		if d == 0 || d == 1 || d == 5 {
+			sz = 700*1024 + r.Intn(5000)
+		}
+		v := make([]byte, sz)
+		for i := range v {
+			v[i] = byte('a' + (i*7+d*13)%26)
+		}
+		copy(v, fmt.Sprintf("doc-%d-", d))
+		vals[d] = v
+		id := []byte(fmt.Sprintf("d%d", d))
+		docs[d] = Doc{{Name: []byte("_id"), Length: 1, Store: true, Value: id, Terms: []TermOcc{{Term: id, Freq: 1}}},
+			{Name: []byte("blob"), Store: true, Value: v}}
+	}
+	check := func(what string, s segment.Segment, keep []int) string {
+		for newNum, d := range keep {
+			var got [][]byte
+			var names []string
+			err := s.VisitStoredFields(uint64(newNum), func(f string, v []byte) bool {
+				names = append(names, f)
+				got = append(got, append([]byte(nil), v...))
+				return true
+			})
+			if err != nil {
+				return fmt.Sprintf("%s: VisitStoredFields(%d): %v", what, newNum, err)
+			}
+			if len(got) != 2 || names[0] != "_id" || names[1] != "blob" || string(got[0]) != fmt.Sprintf("d%d", d) || !bytes.Equal(got[1], vals[d]) {
+				g := ""
+				if len(got) > 0 {
+					g = string(got[0])
+				}
+				return fmt.Sprintf("%s: document %d (input document %d): delivered %d values %v, first %q; want _id=d%d and the %d-byte blob of that document", what, newNum, d, len(got), names, g, d, len(vals[d]))
+			}
+		}
+		return ""
+	}
+	all := []int{0, 1, 2, 3, 4, 5, 6, 7, 8}
+	bad := guard(opTimeout, func() string {
+		s, _, err := ice.VerifNew(toDocs(docs), normFunc([3]uint64{1, 1, 1}), 1024)
+		if err != nil {
+			return "New failed: " + err.Error()
+		}
+		if m := check("built", s, all); m != "" {
+			return m
+		}
+		img, _, err := persist(s)
+		if err != nil {
+			return "WriteTo failed: " + err.Error()
+		}
+		l, err := ice.Load(segment.NewDataBytes(img))
+		if err != nil {
+			return "Load failed: " + err.Error()
+		}
+		if m := check("loaded", l, all); m != "" {
+			return m
+		}
+		for _, drops := range [][]uint32{nil, {2}} {
+			var bm *roaring.Bitmap
+			keep := all
+			if drops != nil {
+				bm = bitmapOf(drops)
+				keep = []int{0, 1, 3, 4, 5, 6, 7, 8}
+			}
+			var buf bytes.Buffer
+			if _, err := ice.Merge([]segment.Segment{l}, []*roaring.Bitmap{bm}, 4096).WriteTo(&buf, nil); err != nil {
+				return "Merge failed: " + err.Error()
+			}
+			ml, err := ice.Load(segment.NewDataBytes(buf.Bytes()))
+			if err != nil {
+				return "Load of the merged file failed: " + err.Error()
+			}
+			if m := check(fmt.Sprintf("merged (deletions %v)", drops), ml, keep); m != "" {
+				return m
+			}
+		}
+		return ""
+	})
+	e.count("big-stored-value-segments", 1)
+	if bad != "" {
+		return []Violation{{Prop: "C06", CaseID: caseID("C06big", e.seed, 0), Kind: "fault",
+			Case:   &Case{ID: caseID("C06big", e.seed, 0), Queries: []Query{{"(9 documents; documents 0, 1 and 5 store a value of about 700 KiB: regenerate with the seed)"}}},
+			Detail: "stored values of hundreds of KiB: " + bad}}
+	}
+	return nil
 }
